@@ -189,3 +189,67 @@ Definition agree_grad_values (shape : list Z) (thr : Z) (merge : bool)
 (* a gradient layout may be rejected (grad.view(merged_dims) raises) only when merging changes the shape *)
 Definition view_may_fail (shape : list Z) (thr : Z) (merge : bool) : bool :=
   negb (Zs_eqb (merged_shape shape thr merge) shape).
+
+(* ---------------------------------------------------------------------------------------------
+   parameter-layout stream: a parameter of logical shape `shape` stored with arbitrary strides `pstr`.
+   loc maps a logical row-major index to the storage offset (relative to the parameter's first element). *)
+Fixpoint loc (sizes strides : list Z) (i : Z) : Z :=
+  match sizes, strides with
+  | n :: ss, st :: sts => (i / prodl ss) * st + loc ss sts (i mod prodl ss)
+  | _, _ => 0
+  end.
+
+(* A strided view of shape M over that storage with the same logical order exists iff the strides read off
+   the unit steps of M (s_d = loc of the flat index "one step in dim d") reproduce loc on every element.
+   Semantic definition of what `param.view(merged_dims)` can express (no transcription of ATen's computeStride);
+   BlockingProofs.viewable_complete: if ANY stride vector works then this one does. *)
+Definition unit_strides (shape pstr M : list Z) : list Z := map (loc shape pstr) (cstrides M).
+
+Definition viewable (shape pstr M : list Z) : bool :=
+  forallb (fun i => loc shape pstr i =? loc M (unit_strides shape pstr M) i) (Zrange (prodl shape)).
+
+Definition viewable_layout (shape pstr : list Z) (thr : Z) (merge : bool) : bool :=
+  viewable shape pstr (merged_shape shape thr merge).
+
+(* the implementation's parameter blocks (offsets relative to the parameter's storage offset) must address,
+   in their own row-major order, the storage locations of the logical indices of the model's blocks *)
+Definition agree_param_layout (shape pstr : list Z) (thr : Z) (merge : bool)
+           (impl_merged : list Z) (impl : list view) : bool :=
+  let st := distributor_init shape thr merge in
+  Zs_eqb (merged_dims st) impl_merged
+  && forallb2 (fun v w => Zs_eqb (vsizes v) (vsizes w)
+                          && Zs_eqb (map (loc shape pstr) (view_offsets v)) (view_offsets w)) (param_blocks st) impl.
+
+(* update_params observed on the raw storage (index = offset relative to the parameter's first element) *)
+Definition update_raw_okb (bl : list view) (bases : list Z) (raw : list Z) : bool :=
+  (length bl =? length bases)%nat
+  && forallb (fun ov => (0 <=? fst ov) && (nth (Z.to_nat (fst ov)) raw (-1) =? snd ov)) (scatter bl (update_dirs bl bases)).
+
+(* ---------------------------------------------------------------------------------------------
+   multi-call stream: several parameters, a presence pattern per call.  Parameter i's blocks are shifted by
+   1000*i (offsets and logical indices then identify the parameter); what merge_and_block_gradients must
+   leave behind depends on the CURRENT pattern only. *)
+Definition shift_view (k : Z) (v : view) : view := mkv (k + voff v) (vsizes v) (vstrides v).
+
+Fixpoint multi_blocks (shapes : list (list Z)) (presence : list bool) (thr : Z) (merge : bool) (i : Z) : list view :=
+  match shapes, presence with
+  | sh :: shs, b :: bs =>
+      (if b then map (shift_view (1000 * i)) (blocks sh thr merge) else []) ++ multi_blocks shs bs thr merge (i + 1)
+  | _, _ => []
+  end.
+
+Fixpoint multi_selector (shapes : list (list Z)) (presence : list bool) (thr : Z) (merge : bool) : list bool :=
+  match shapes, presence with
+  | sh :: shs, b :: bs => repeat b (length (blocks sh thr merge)) ++ multi_selector shs bs thr merge
+  | _, _ => []
+  end.
+
+(* impl_sel = local_grad_selector, impl_p = local_masked_blocked_params (shifted by 1000 * index of the parameter
+   whose storage they live in), impl_g = (shape, values) of the returned gradient blocks; gradient i carries
+   1000*i + logical index *)
+Definition agree_multi (shapes : list (list Z)) (thr : Z) (merge : bool) (presence : list bool)
+           (impl_sel : list bool) (impl_p : list view) (impl_g : list (list Z * list Z)) : bool :=
+  let bl := multi_blocks shapes presence thr merge 0 in
+  list_eqb Bool.eqb (multi_selector shapes presence thr merge) impl_sel
+  && views_eqb bl impl_p
+  && forallb2 (fun v g => Zs_eqb (vsizes v) (fst g) && Zs_eqb (view_offsets v) (snd g)) bl impl_g.
